@@ -392,7 +392,9 @@ fn fail(idx: usize, what: String) -> X {
 /// connection that could not be opened), as opposed to something the server did to the connection (a garbled or missing
 /// answer, a reset, stray bytes)?
 fn is_trouble(what: &str) -> bool {
-    ["timeout:", " open:", "bind:", "connect", "accept:", "TLS handshake", "h2 handshake", "h2 ready", "join:", "could not be started"]
+    // (a TLS / h2 handshake that FAILS - rather than times out -, an ALPN result other than the one asked for, a closed connection,
+    // a reset stream, a garbled answer are things the server did)
+    ["timeout:", "bind:", "connect:", "connect to port", "accept:", "addr:", "join:", "could not be started", "is not stable"]
         .iter()
         .any(|p| what.contains(p))
 }
